@@ -84,7 +84,9 @@ def _pick_ifexp(ev: Evaluator, st: AbsState, e: ast.expr | None) -> ast.expr | N
     return e
 
 
-def commute_outcomes(ctx: Ctx, new_cls: ClassInfo, existing: ClassInfo) -> tuple[FunctionInfo, list[Outcome]]:
+def commute_outcomes(ctx: Ctx, new_cls: ClassInfo, existing: ClassInfo, flags: dict[str, bool] | None = None) -> tuple[FunctionInfo, list[Outcome]]:
+    """Feasible outcomes of new_cls.commute() over an existing node of class ``existing``.  ``flags`` fixes the flag
+    properties of a hypothetical extension class (a user-defined RowFilter / Reordering subclass)."""
     m = ctx.m
     f = m.method(new_cls, "commute")
     if f is None:
@@ -106,6 +108,8 @@ def commute_outcomes(ctx: Ctx, new_cls: ClassInfo, existing: ClassInfo) -> tuple
                     val = eff in ("same", "shrink")
                 if val is not None and eff != "unknown":
                     overrides[src(n)] = ConstVal(val if fs[0].polarity else not val)
+    for fl, val in (flags or {}).items():
+        overrides[f"{cur}.operation.{fl}"] = ConstVal(val)
     st0 = AbsState({f"{cur}.operation": cls_val(existing), "self": cls_val(new_cls)}, overrides)
     outs: list[Outcome] = []
     for p in ctx.paths(f):
@@ -155,6 +159,44 @@ def commute_outcomes(ctx: Ctx, new_cls: ClassInfo, existing: ClassInfo) -> tuple
     return f, outs
 
 
+def _widened_exact(ctx: Ctx, f: FunctionInfo, o: "Outcome", sec: ast.Call) -> bool | None:
+    """Is the column set of the restored projection exactly `current.columns | fixed.columns` (for every value of the
+    sets, given that a projection's columns are a subset of its target's)?  None when the expression is not set algebra."""
+    import copy
+
+    from ..setalg import Venn
+
+    cur = [p for p in f.params if p != "self"][0]
+    arg = sec.args[0] if sec.args else kw(sec, "columns")
+    if arg is None:
+        return None
+    atoms = [f"{cur}.columns", "self.fixed.columns", f"{cur}.target.columns"]
+    v = Venn(atoms)
+    C, F, T = (v.atom(a) for a in atoms)
+
+    class Sub(ast.NodeTransformer):
+        def visit_Call(self, node):
+            self.generic_visit(node)
+            if call_attr(node) == "applied_columns" and isinstance(node.func, ast.Attribute) and src(node.func.value) == "self" and [src(a) for a in node.args] == [cur]:
+                return ast.BinOp(left=ast.parse(atoms[0], mode="eval").body, op=ast.BitOr(), right=ast.parse(atoms[1], mode="eval").body)
+            return node
+
+    e = Sub().visit(copy.deepcopy(arg))
+    ast.fix_missing_locations(e)
+    # locals of the path
+    env: dict[str, frozenset] = {}
+    for s in o.path.steps:
+        if s.kind == "stmt" and isinstance(s.node, ast.Assign) and len(s.node.targets) == 1 and isinstance(s.node.targets[0], ast.Name):
+            val = v.eval(Sub().visit(copy.deepcopy(s.node.value)), env)
+            if val is not None:
+                env[s.node.targets[0].id] = val
+    got = v.eval(e, env)
+    if got is None:
+        return None
+    valid = frozenset(r for r in v.full if not (r in C and r not in T))
+    return (got & valid) == ((C | F) & valid)
+
+
 def r04_1_matrix(ctx: Ctx) -> None:
     run, m, k = ctx.run, ctx.m, ctx.k
     run.rule(
@@ -193,6 +235,14 @@ def r04_1_matrix(ctx: Ctx) -> None:
                         ok = "self.tag" in src(sec)
                     if ok and n.name == "PartialJoin":
                         ok = "applied_columns" in src(sec) or "fixed.columns" in src(sec)
+                        exact = _widened_exact(ctx, f, o, sec)
+                        if ok and exact is False:
+                            bad = o
+                            problem = (
+                                f"PartialJoin.commute moves above an existing Projection and restores `{src(sec)[:70]}`: that is not the projected columns plus "
+                                "all columns of the fixed operand - a column the projection dropped but the fixed operand also has is lost from the join's result"
+                            )
+                            break
                     if not ok:
                         bad = o
                         problem = (
@@ -236,6 +286,37 @@ def r04_1_matrix(ctx: Ctx) -> None:
                 run.fail("R04.1", inst, problem, fi=f, node=bad.call if bad else f.node, details=describe(bad.path) if bad else [], facts={"cell": cell, "outcomes": [repr(o) for o in outs]})
             else:
                 run.ok("R04.1", inst, {"cell": cell, "outcomes": [repr(o) for o in outs]})
+    # ---- the documented extension points: a user-defined RowFilter / Reordering is known to commute() only through
+    # its flags.  An operation that changes how many rows there are must not move above a count-dependent one, and one
+    # that changes their order not above an order-dependent one, whatever the other flag says.
+    rowfilter, reordering = m.find_class("RowFilter"), m.find_class("Reordering")
+    changes_count = {"Selection", "Deduplication", "PartialJoin", "Slice"}
+    changes_order = {"Sort"}
+    variants = [(rowfilter, {"is_count_dependent": cd, "is_order_dependent": od, "is_count_invariant": False}) for cd in (False, True) for od in (False, True)]
+    variants.append((reordering, {"is_count_dependent": False, "is_order_dependent": False, "is_count_invariant": True, "is_empty_invariant": True}))
+    for n in sorted(new_classes, key=lambda c: c.name):
+        if n.name == "Identity":
+            continue
+        for base, flags in variants:
+            f, outs = commute_outcomes(ctx, n, base, flags)
+            tagv = f"custom {base.name}[count_dependent={flags['is_count_dependent']}, order_dependent={flags['is_order_dependent']}]"
+            inst = f"{n.name}x{base.name}:cd={int(flags['is_count_dependent'])}:od={int(flags['is_order_dependent'])}"
+            if not outs:
+                raise AnalysisError(f"{f.key}: no feasible outcome for a {tagv}")
+            moved = [o for o in outs if o.first != "None"]
+            problem = None
+            if moved and n.name in changes_count and flags["is_count_dependent"]:
+                problem = f"{n.name}.commute moves above a {tagv} {moved[0]!r}: {n.name} changes the number of rows the existing operation sees, and that operation depends on it"
+            elif moved and n.name in changes_order and flags["is_order_dependent"]:
+                problem = f"{n.name}.commute moves above a {tagv} {moved[0]!r}: {n.name} changes the order of the rows the existing operation sees, and that operation depends on it"
+            elif moved and n.name == "Slice":
+                problem = f"Slice.commute moves above a {tagv} {moved[0]!r}: a positional window depends on the rows before it"
+            elif moved and n.name == "Sort" and base is reordering:
+                problem = f"Sort.commute moves above a custom Reordering {moved[0]!r}: a stable sort breaks ties by incoming order, so the later reordering must stay the outer one"
+            if problem:
+                run.fail("R04.1", inst, problem, fi=f, node=moved[0].call, details=describe(moved[0].path), facts={"outcomes": [repr(o) for o in outs]})
+            else:
+                run.ok("R04.1", inst, {"outcomes": [repr(o) for o in outs]})
 
 
 def r04_2_failure_hands_back(ctx: Ctx) -> None:
@@ -416,8 +497,17 @@ def r03_1_apply_protocol(ctx: Ctx) -> None:
         is_done = bool(backs) and has_fact(facts, "TRUTH", (done_v,), True)
         done_known_false = done_known_false or not backs
         problem = None
+        # what is inserted - upstream or at the root - is the operation _begin_apply returned, not the caller's `self`
+        for what, sites in (("backtrack_unary", backs), ("append_unary", appends)):
+            for j, c in sites:
+                a0 = c.args[0] if c.args else None
+                b0 = env_at(p, j).get(a0.id) if isinstance(a0, ast.Name) else None
+                while isinstance(b0, ast.Name):
+                    b0 = env_at(p, j).get(b0.id)
+                if not (isinstance(b0, tuple) and b0[0] == "unpack" and isinstance(b0[1], ast.Call) and call_attr(b0[1]) == "_begin_apply" and b0[2] == 0):
+                    problem = problem or f"{what} is given `{src(a0) if a0 is not None else '?'}` instead of the operation returned by _begin_apply (a PartialJoin is resolved, a do-nothing operation replaced, only there)"
         if no_backtrack and backs:
-            problem = "backtrack_unary is called although backtrack is false"
+            problem = problem or "backtrack_unary is called although backtrack is false"
         if other_engine and backtrack and not backs:
             problem = problem or "backtracking was requested for another engine but backtrack_unary is not called"
         if not other_engine and (backs or transfers):
